@@ -23,7 +23,7 @@ ASSUMPTIONS = ['TlbSchema transcription of message$_, CommonMsgInfo, StateInit, 
                'a message whose parts do not fit any placement (header + 3 control bits > 1023 ...) is not representable and not demanded',
                'highload wallet data is covered only through WalletMessage-free fields (its query dictionary serialiser is unimplemented)']
 WRAP = {'StateInit': A.StateInit, 'CurrencyCollection': B.CurrencyCollection, 'WalletV3Data': W.WalletV3Data, 'WalletV4Data': W.WalletV4Data,
-        'NftItemData': N.NftItemData, 'NftItemSaleFees': N.NftItemSaleFees, 'HashUpdate': Ut.HashUpdate, 'TickTock': A.TickTock}
+        'NftItemData': N.NftItemData, 'NftItemSaleFees': N.NftItemSaleFees, 'NftItemSaleData': N.NftItemSaleData, 'HashUpdate': Ut.HashUpdate, 'TickTock': A.TickTock}
 
 
 def model_checks(tier):
@@ -106,6 +106,12 @@ def lib_wrap(ty, v):
         return N.NftItemData(bi(v['index']), lib_addr(v['collection_address']), lib_addr(v['owner_address']), tlbkit.tree_to_cell(v['content']))
     if ty == 'NftItemSaleFees':
         return N.NftItemSaleFees(lib_addr(v['marketplace_fee_address']), by(v['marketplace_fee']), lib_addr(v['royalty_address']), by(v['royalty_amount']))
+    if ty == 'NftItemSaleData':
+        f = v['fees_cell']
+        return N.NftItemSaleData(bool(v['is_complete'][0]), bi(v['created_at']), lib_addr(v['marketplace_address']), lib_addr(v['nft_address']),
+                                 lib_addr(v['nft_owner_address']), by(v['full_price']),
+                                 N.NftItemSaleFees(lib_addr(f['marketplace_fee_address']), by(f['marketplace_fee']), lib_addr(f['royalty_address']), by(f['royalty_amount'])),
+                                 bool(v['can_deploy_by_external'][0]))
     if ty == 'HashUpdate':
         return Ut.HashUpdate(bi(v['old_hash']).to_bytes(32, 'big'), bi(v['new_hash']).to_bytes(32, 'big'))
     if ty == 'TickTock':
@@ -236,7 +242,8 @@ def generate(tier, seed, ctx):
     for case in ctx['mc']['tlb_wrap_g'] + [c for c in ctx['mc']['tlb_msg_g'] if c['type'] == 'StateInit']:
         ty, v = case['type'], case['val']
         canon = not (ty == 'CurrencyCollection' and not cc_canonical(v['cc'])) and \
-            not (ty == 'NftItemSaleFees' and not (minimal(v['marketplace_fee']) and minimal(v['royalty_amount'])))
+            not (ty == 'NftItemSaleFees' and not (minimal(v['marketplace_fee']) and minimal(v['royalty_amount']))) and \
+            not (ty == 'NftItemSaleData' and not (minimal(v['full_price']) and minimal(v['fees_cell']['marketplace_fee']) and minimal(v['fees_cell']['royalty_amount'])))
         if canon:
             rec = {'op': 'wrap_ser', 'type': ty, 'val': v}
             try:
